@@ -1,0 +1,62 @@
+//go:build verif
+
+// Package vhook holds the verification hooks of gnet. With the build tag "verif" a test may
+// install a gate (a blocking scheduler callback) and a sink (an event recorder); when none is
+// installed a hook costs one atomic load.
+package vhook
+
+import "sync/atomic"
+
+// Enabled reports whether the hooks are compiled in.
+const Enabled = true
+
+type (
+	// GateFunc is called right before an atomic, queue, eventfd or epoll operation and may block.
+	GateFunc func(site string, obj any, a int)
+	// SinkFunc receives recorded events; kind is "ev" or "sys".
+	SinkFunc func(kind, site string, obj any, a, b int, err error)
+)
+
+var (
+	gate atomic.Pointer[GateFunc]
+	sink atomic.Pointer[SinkFunc]
+)
+
+// SetGate installs (or with nil removes) the gate.
+func SetGate(f GateFunc) {
+	if f == nil {
+		gate.Store(nil)
+		return
+	}
+	gate.Store(&f)
+}
+
+// SetSink installs (or with nil removes) the sink.
+func SetSink(f SinkFunc) {
+	if f == nil {
+		sink.Store(nil)
+		return
+	}
+	sink.Store(&f)
+}
+
+// Gate marks the point right before an atomic, queue, eventfd or epoll operation.
+func Gate(site string, obj any, a int) {
+	if f := gate.Load(); f != nil {
+		(*f)(site, obj, a)
+	}
+}
+
+// Ev records a state change of loop-owned state, after it happened.
+func Ev(site string, obj any, a, b int) {
+	if f := sink.Load(); f != nil {
+		(*f)("ev", site, obj, a, b, nil)
+	}
+}
+
+// Sys records a system call of the I/O path: descriptor, byte count and error.
+func Sys(site string, obj any, fd, n int, err error) {
+	if f := sink.Load(); f != nil {
+		(*f)("sys", site, obj, fd, n, err)
+	}
+}
